@@ -214,7 +214,7 @@ def rule_known_coalitions(prog: Program, col: Collector) -> None:
 
 
 def rule_seed_integrity(prog: Program, col: Collector) -> None:
-    col.rule("SEED", "ModelInstance never rewrites its seed; the instance generator is default_rng(self.seed), created unconditionally", 2)
+    col.rule("SEED", "ModelInstance never rewrites its seed or any other option it was given; the instance generator is default_rng(self.seed), created unconditionally", 3)
     NEC = ("identically seeded runs must draw identical games: a seed that is replaced (0 treated as 'unset', clamped, re-derived from the clock) or a "
            "generator created from something else makes the run a function of something other than --seed")
     methods = prog.methods("run.model.ModelInstance")
@@ -227,6 +227,25 @@ def rule_seed_integrity(prog: Program, col: Collector) -> None:
                 stores.append((ref, e))
             if e.obj == SELF and e.attr == "game_generator_rng":
                 rng_stores.append((ref, e))
+    # no other option is rewritten either: the run is stored and found again under the name it was given, with the configuration it was given
+    m, c = prog.cls("run.model.ModelInstance")
+    fields = {n.target.id for n in c.body if isinstance(n, ast.AnnAssign) and isinstance(n.target, ast.Name)}
+    derived_ok = {"model_dir": "str -> Path conversion", "model_path": "default model_dir / 'model' when None", "run_steps_limit": "default 2**n when None (commands)"}
+    rewrites = []
+    for ref in prog.all_functions():
+        if "/tests/" in ref.module.rel():
+            continue
+        rft = fterms(prog, ref)
+        inst_like = {("param", "self")} if (ref.cls is not None and ref.cls.name == "ModelInstance") else {("param", p) for p in ref.positional_params() if p == "instance"}
+        for e in list(rft.of_kind("store")) + list(rft.of_kind("aug")):
+            if e.attr in fields and e.obj in inst_like and e.attr not in derived_ok and e.attr != "seed":
+                rewrites.append((ref, e))
+    for ref, e in rewrites:
+        col.violation(ref.where(e.node), ref.short, f"option-rewritten:{e.attr}", f"{ref.short} assigns {short(e.target, 30)} = {short(e.value, 50)}",
+                      "an option that is silently changed (a run name with ':' replaced, a generator name normalised) makes the run unfindable under the name it was given, "
+                      "lets two different names collide on one entry, or runs another configuration than the one recorded in the metadata")
+    if not rewrites:
+        col.ok(f"{m.rel()}:{c.lineno}", "run.model.ModelInstance", f"none of the {len(fields)} option fields is reassigned (allowed derivations: {sorted(derived_ok)})")
     for ref, e in stores:
         col.violation(ref.where(e.node), ref.short, "seed-rewritten", f"{ref.short} assigns self.seed", NEC)
     if not stores:
